@@ -144,6 +144,24 @@ class IH5MFRecord(IH5Record):
         """Return canonical filename of manifest based on path of a container file."""
         return Path(f"{str(record)}{cls.MANIFEST_EXT}")
 
+    # Override to protect manifests of committed containers kept without the container
+    @classmethod
+    def _new_container(cls, path: Path, ub: IH5UserBlock):
+        mf_path = cls._manifest_filepath(str(path))
+        if mf_path.exists():
+            # would be overwritten on commit, but belongs to some other container
+            raise FileExistsError(f"{mf_path}: manifest of another container exists!")
+        return super()._new_container(path, ub)
+
+    # Override to also remove the manifest files
+    @classmethod
+    def delete_files(cls, record: Path):
+        for file in cls.find_files(record):
+            mf_path = cls._manifest_filepath(str(file))
+            if mf_path.is_file():
+                mf_path.unlink()
+        super().delete_files(record)
+
     # Override to also load and check latest manifest
     @classmethod
     def _open(cls, paths: List[Path], **kwargs):
